@@ -183,7 +183,7 @@ class Anchors:
               and 'InnerBucket' in _tree_str(f.j['sig']['output'])]
         self._set('view-from-meta', self._unique(fm, 'from_meta'), 'InnerBucket constructor from (BucketMeta, Pages)')
         cm = self.roles.get('Tx::commit')
-        direct = cg.get(cm, set()) if cm else set()
+        direct = ({t for _, _, t, _ in F.call_sites(self.xf(cm)) if t is not None} | cg.get(cm, set())) if cm else set()     # module-private helpers of commit folded in
         sp = [f for f in ibm if f in direct and 'BucketMeta' in _tree_str(f.j['sig']['output'])]
         self._set('spill-role', self._unique(sp, 'spill'), 'InnerBucket method called by Tx::commit returning Result<BucketMeta>')
         rb = [f for f in ibm if f in direct and f not in sp and any('TxFreelist' in _tree_str(t) for t in f.j['sig']['inputs'])]
